@@ -61,8 +61,22 @@ def _overridden_below(prog: Program, owner: Cls, name: str) -> bool:
     return False
 
 
-def _helper_for(prog: Program, cls: Cls, caller: Func, call: ast.Call) -> Optional[Func]:
+def _helper_for(prog: Program, cls: Optional[Cls], caller: Func, call: ast.Call) -> Optional[Func]:
     f = call.func
+    if isinstance(f, ast.Name) and _is_private(f.id):
+        # a private function of the caller's module (not shadowed by a local / parameter of the caller)
+        h = prog.functions.get(f"{caller.mod.name}.{f.id}")
+        if h is None or h.cls is not None or h is caller or h.is_generator or h.nested:
+            return None
+        if f.id in caller.params or any(isinstance(n, ast.Name) and n.id == f.id and isinstance(n.ctx, ast.Store) for n in ast.walk(caller.node)):
+            return None
+        if any(isinstance(a, ast.Starred) for a in call.args) or any(k.arg is None for k in call.keywords):
+            return None
+        if any(isinstance(n, (ast.Global, ast.Nonlocal, ast.Yield, ast.YieldFrom, ast.Await)) for n in ast.walk(h.node)):
+            return None
+        return h
+    if cls is None:
+        return None
     if not isinstance(f, ast.Attribute) or not _is_private(f.attr):
         return None
     base = f.value
@@ -120,7 +134,7 @@ def _bind(h: Func, call: ast.Call, tag: str):
     """(prefix statements, mapping, rename) for the helper's parameters and locals, or None when the call does not fit"""
     a = h.node.args
     params = [x.arg for x in a.posonlyargs + a.args]
-    if not h.is_static and params:
+    if h.cls is not None and not h.is_static and params:
         self_p, params = params[0], params[1:]
     else:
         self_p = None
@@ -280,10 +294,8 @@ _CACHE: Dict[tuple, Func] = {}
 
 def inline_view(prog: Program, cls: Optional[Cls], f: Func) -> Func:
     """``f`` with the private helpers of ``cls`` inlined (``f`` itself when there is nothing to inline)"""
-    if cls is None or f.cls is None:
-        return f
     cache = prog.__dict__.setdefault("_inline_cache", {})      # per Program: variants of the tree are separate programs
-    key = (cls.qual, f.qual)
+    key = (cls.qual if cls is not None else None, f.qual)
     if key in cache:
         return cache[key]
     inl = _Inliner(prog, cls, f)
